@@ -56,8 +56,43 @@ CANARY = ("{| n_fields := []; n_name := [69]%N; n_msg := []; n_src := []; "
           "n_heads := [[]]; n_suffix_ok := [true]; n_fvals := [[]] |}")
 
 
+def struct_source(d):
+    """Go source of a farm struct, for failing-input reports"""
+    lines = ["type %s struct {" % d["name"], "\tgerror.GError"]
+    for f in d["fields"]:
+        lines.append("\t%s %s%s" % (f["name"], f["type"], (" `%s`" % f["tag"]) if f["tag"] else ""))
+    lines.append("}" + ("   // generated with -skipConvertGen" if d.get("skip") else ""))
+    return "\n".join(lines)
+
+
+def attribute_build_errors(d, log):
+    """map compiler messages about generated files to the farm structs they belong to"""
+    import re
+    broken = {}
+    cache = {}
+    for m in re.finditer(r"cmd/c09/(farm_\w+\.gerror\.go):(\d+):\d+: ([^\n]*)", log):
+        fname, line, msg = m.group(1), int(m.group(2)), m.group(3)
+        if fname not in cache:
+            try:
+                cache[fname] = open(os.path.join(d, fname)).read().splitlines()
+            except OSError:
+                cache[fname] = []
+        src = cache[fname]
+        name = None
+        for k in range(min(line, len(src)) - 1, -1, -1):
+            mm = re.match(r"func \(\w+ \*(\w+)\)", src[k])
+            if mm:
+                name = mm.group(1)
+                break
+        if name:
+            broken.setdefault(name, []).append("%s:%d: %s" % (fname, line, msg))
+    return broken
+
+
 def prepare(ctx, nrandom):
-    """farm written by c09gen, methods generated by the current CLI, harness built"""
+    """farm written by c09gen, methods generated by the current CLI, harness built.  Structs whose
+    generated code does not compile are recorded (they are failing inputs: program = the struct
+    definition), left out, and the farm is generated again without them."""
     cli, log = gl.build_gerror_cli(ctx)
     if not cli:
         return None, "gerror CLI build failed:\n" + log
@@ -66,21 +101,37 @@ def prepare(ctx, nrandom):
         return None, "c09gen build failed:\n" + log
     h = ctx.harness_module()
     d = os.path.join(h, "cmd", "c09")
-    rc, out = vlib.sh([genb, "-seed", str(ctx.seed), "-n", str(nrandom), "-dir", d], timeout=120)
-    if rc != 0:
-        return None, "c09gen failed:\n" + out
-    names = json.loads(out.strip().splitlines()[-1])
-    with concurrent.futures.ThreadPoolExecutor(max_workers=2) as ex:
-        fa = ex.submit(gl.run_gerror_cli, ctx, cli, d, "farm_gen.go", names["gen"])
-        fb = ex.submit(gl.run_gerror_cli, ctx, cli, d, "farm_skip.go", names["skip"], True)
-        for f, what in ((fa, "farm_gen.go"), (fb, "farm_skip.go (-skipConvertGen)")):
-            rc, out = f.result()
-            if rc != 0:
-                return None, "the gerror CLI failed on %s:\n%s" % (what, out)
-    binp, log = ctx.build_harness("c09", tags="verif gerrgen")
-    if not binp:
-        return None, "generated code / harness does not build:\n" + log
-    return {"dir": d, "names": names, "bin": binp}, None
+    broken, alldefs = {}, {}
+    for attempt in range(4):
+        args = [genb, "-seed", str(ctx.seed), "-n", str(nrandom), "-dir", d]
+        if broken:
+            args += ["-exclude", ",".join(sorted(broken))]
+        rc, out = vlib.sh(args, timeout=120)
+        if rc != 0:
+            return None, "c09gen failed:\n" + out
+        names = json.loads(out.strip().splitlines()[-1])
+        alldefs.update(names.get("defs", {}))
+        for fn in ("farm_gen.gerror.go", "farm_skip.gerror.go"):
+            try:
+                os.remove(os.path.join(d, fn))
+            except OSError:
+                pass
+        with concurrent.futures.ThreadPoolExecutor(max_workers=2) as ex:
+            fa = ex.submit(gl.run_gerror_cli, ctx, cli, d, "farm_gen.go", names["gen"])
+            fb = ex.submit(gl.run_gerror_cli, ctx, cli, d, "farm_skip.go", names["skip"], True)
+            for f, what in ((fa, "farm_gen.go"), (fb, "farm_skip.go (-skipConvertGen)")):
+                rc, out = f.result()
+                if rc != 0:
+                    return None, "the gerror CLI failed on %s:\n%s" % (what, out)
+        binp, log = ctx.build_harness("c09", tags="verif gerrgen")
+        if binp:
+            return {"dir": d, "names": names, "bin": binp, "broken": broken, "defs": alldefs}, None
+        newly = attribute_build_errors(d, log)
+        newly = {k: v for k, v in newly.items() if k not in broken}
+        if not newly:
+            return None, "generated code / harness does not build:\n" + log
+        broken.update(newly)
+    return None, "generated code / harness does not build after leaving out %s:\n%s" % (sorted(broken), log)
 
 
 def ties(ctx, farm):
@@ -176,10 +227,11 @@ def judge_and_report(ctx, rp, binp, terms, jsons, quick, tag, seen, only_v1=Fals
         seen.add(key)
         if code == 1:
             j = minimise(ctx, binp, j, code)
+            j = dict(j, struct=struct_source({"name": j["type"], "fields": j["fields"], "skip": j.get("skip")}))
             rep = {"case": j,
                    "verdict": "generated method's result differs from the base method's, or clone/print law violated",
                    "replay_cmd": "./check C09 --replay <this file>"}
-            if rp.failing(rep, features(j, code)) == "violation" and j["type"][0] in "GK":
+            if rp.failing(rep, features(j, code)) == "violation" and j["type"][0] in "GKO":
                 # only replayable on farms that contain the struct: keep fixed-farm structs only
                 gl.write_corpus_hit("C09", {k: j[k] for k in ("type", "name", "msg", "src", "steps")})
         elif not only_v1 and len(rp.pending) < 8:
@@ -208,6 +260,22 @@ def run(ctx):
     for what, detail in ties(ctx, farm):
         rp.defer("tie T: " + what, detail, "tie")
     binp = farm["bin"]
+    # structs whose generated code does not compile: the struct definition is the failing input
+    reported_build = 0
+    for name in sorted(farm["broken"], key=lambda n: (len(farm["defs"].get(n, {}).get("fields", [])), n)):
+        d = farm["defs"].get(name, {"name": name, "fields": []})
+        if reported_build >= 2:
+            ctx.log("generated code of struct %s does not compile either (not reported separately)" % name)
+            continue
+        reported_build += 1
+        rp.failing({"case": {"type": name, "struct": struct_source(d), "fields": d.get("fields"),
+                             "skip_convert_gen": d.get("skip"), "method": "(all: the generated file does not compile)",
+                             "build_errors": farm["broken"][name][:6]},
+                    "verdict": "the code the gerror generator emits for this extension struct does not compile",
+                    "replay_cmd": "./check C09 --tier %s (VERIF_SEED=%d)" % (ctx.tier, ctx.seed)},
+                   {"kind": "build", "law": "build", "code": 1, "method": "", "differs": "", "panic": False,
+                    "percent_in_print_name": False, "skip_convert_gen": d.get("skip"),
+                    "nfields": len(d.get("fields", []))})
     runs = [("all", ["-mode", "all", "-chains", 4 if quick else 12, "-presets", 1 if quick else 4])]
     terms, jsons, err = vlib.harness_cases(ctx, binp, runs)
     corpus_inputs = [c for c in gl.load_corpus("C09")]
@@ -239,10 +307,12 @@ def run(ctx):
     ctx.cov.update({
         "evaluations": len(jsons),
         "structs": len(farm["names"]["gen"]) + len(farm["names"]["skip"]),
+        "structs_not_compiling": sorted(farm["broken"]),
         "structs_skip_convert_gen": len(farm["names"]["skip"]),
         "distinct_nontrivial": vlib.distinct_count([[j["fields"], j["name"], j["msg"], j["src"], [[s[k] for k in ("m", "src", "dtag", "format", "elems", "err")] for s in j["steps"]]] for j in nt]),
         "nontrivial_by_coq_predicate": nt_coq,
-        "rule": "farm = 6 fixed structs (the repository's two fixtures, an ordering/rename corner case, print names containing '%', empty structs) + "
+        "rule": "farm = 14 fixed structs (the repository's two fixtures, an ordering/rename corner case, print names containing '%', empty structs, "
+                "clone-only / print-only / print+clone fields in all 3! relative name orders, two clone-only fields around a print-only one) + "
                 "random structs with 0-6 extra fields over 13 field types (string, int, bool, float64, time.Duration, "
                 "Stringer enum, slice, map, struct, error, array, rune, uint8) and 17 tag forms (none, print, clone, both in "
                 "either order, renames, rename with space, name only, repeated option, foreign tags), alternately with "
